@@ -668,6 +668,9 @@ def _r7(repo: Repo, ctx) -> None:
     propagation_rule(repo, ctx, 'C02.R7')
     _r7_rest(repo, ctx)
     _r8(repo, ctx)
+    from . import c10 as _c10
+    ctx.floor('C02.R9', 1)
+    _c10.pointer_release_rule(repo, ctx, 'C02.R9')
 
 
 def propagation_rule(repo: Repo, ctx, rule: str) -> None:
